@@ -590,6 +590,10 @@ pub fn c07(c: &Collector, g: &mut Guard) {
     );
     c.bound("geometries", json!(spec.geoms));
     c.bound("selectors", json!("{absent,0,1,2,3,4,5,9999}; ECH counts {absent,0,1..max+2,9999}"));
+    g.need(c, "all_selector_bases");
+    g.need(c, "large_geometry_transitions");
+    g.need(c, "tree_judged");
+    g.need(c, "then_grow");
     g.need(c, "pre_pending_wrap");
     g.need(c, "pre_region");
     g.need(c, "model_changed_state");
@@ -768,6 +772,9 @@ pub fn c13(c: &Collector, g: &mut Guard) {
     );
     c.bound("geometries", json!(spec.geoms));
     c.bound("bfs_depth", json!(depth));
+    g.need(c, "large_geometry_transitions");
+    g.need(c, "tree_judged");
+    g.need(c, "then_grow");
     g.need(c, "pre_pending_wrap");
     g.need(c, "model_changed_state");
     g.need(c, "bfs_judged");
@@ -930,6 +937,9 @@ pub fn c06(c: &Collector, g: &mut Guard) {
     );
     c.bound("geometries", json!(gs));
     c.bound("bfs_depth", json!(depth));
+    g.need(c, "tree_judged");
+    g.need(c, "then_grow");
+    g.need(c, "large_geometry_transitions");
     g.need(c, "model_scrolled");
     g.need(c, "pre_region");
     g.need(c, "bfs_judged");
@@ -1086,6 +1096,9 @@ pub fn c04(c: &Collector, g: &mut Guard) {
     c.bound("geometries", json!(spec.geoms));
     c.bound("bfs_depth", json!(depth));
     c.bound("texts", json!(c04_texts(4).iter().map(|t| crate::ops::esc(t)).collect::<Vec<_>>()));
+    g.need(c, "tree_judged");
+    g.need(c, "then_grow");
+    g.need(c, "large_geometry_transitions");
     g.need(c, "model_wrapped");
     g.need(c, "model_scrolled");
     g.need(c, "pre_pending_wrap");
